@@ -182,11 +182,94 @@ Case gen() {
   return c;
 }
 
+// part "exact": the exact-equality clauses only, on many small inputs with several paths per operand.  Loading variants:
+// one AddSubject call / one call per path / through a ReuseableDataContainer64; representation variants: path order,
+// start vertex (random, and rotated to the vertex of largest y, where the sweep starts the path), duplicated vertices,
+// closing vertex (alone and combined with the rotations).
+Verdict judgeExact(const Case& c) {
+  Verdict v;
+  const Paths64& subj = c.P("subj");
+  const Paths64& clip = c.P("clip");
+  Paths64 all = subj;
+  all.insert(all.end(), clip.begin(), clip.end());
+  if (all.empty()) { v.discard = true; return v; }
+  for (auto& p : all) if (p.size() < 3) { v.discard = true; return v; }
+  int64_t m = O::maxAbs(all);
+  int crossings = 0;
+  if (!O::generalPosition(O::segsOf(all), 3.0L + (ld)m * ldexpl(1.0L, -40), &crossings)) { v.discard = true; ST.count("discard_not_general_position"); return v; }
+  uint64_t seed = (uint64_t)c.I("perm");
+  auto next = [&]() { seed = seed * 6364136223846793005ull + 1442695040888963407ull; return seed >> 33; };
+  auto permute = [&](Paths64 r) { for (size_t i = r.size(); i > 1; --i) std::swap(r[i - 1], r[next() % i]); return r; };
+  auto rotRandom = [&](Paths64 r) { for (auto& p : r) std::rotate(p.begin(), p.begin() + next() % p.size(), p.end()); return r; };
+  auto rotToMaxY = [&](Paths64 r) { for (auto& p : r) { size_t b = 0; for (size_t k = 1; k < p.size(); ++k) if (p[k].y > p[b].y || (p[k].y == p[b].y && p[k].x < p[b].x)) b = k; std::rotate(p.begin(), p.begin() + b, p.end()); } return r; };
+  auto rotToMinY = [&](Paths64 r) { for (auto& p : r) { size_t b = 0; for (size_t k = 1; k < p.size(); ++k) if (p[k].y < p[b].y) b = k; std::rotate(p.begin(), p.begin() + b, p.end()); } return r; };
+  auto closing = [&](Paths64 r) { for (auto& p : r) { p.push_back(p[0]); if (next() % 3 == 0) p.push_back(p[0]); } return r; };
+  auto dups = [&](Paths64 r) { for (auto& p : r) { Path64 q; for (auto& pt : p) { q.push_back(pt); if (next() % 3 == 0) q.push_back(pt); } p = q; } return r; };
+  struct Var { const char* name; Paths64 s, c; };
+  std::vector<Var> vars = {
+      {"path order permuted", permute(subj), permute(clip)},
+      {"start vertices rotated", rotRandom(subj), rotRandom(clip)},
+      {"paths started at their vertex of largest y", rotToMaxY(subj), rotToMaxY(clip)},
+      {"paths started at their vertex of smallest y", rotToMinY(subj), rotToMinY(clip)},
+      {"closing vertices appended", closing(subj), closing(clip)},
+      {"closing vertices appended to paths started at their vertex of largest y", closing(rotToMaxY(subj)), closing(rotToMaxY(clip))},
+      {"closing vertices appended to paths started at their vertex of smallest y", closing(rotToMinY(subj)), closing(rotToMinY(clip))},
+      {"vertices duplicated", dups(subj), dups(clip)},
+      {"vertices duplicated and closing vertices appended, order permuted", permute(closing(dups(subj))), permute(closing(dups(clip)))},
+  };
+  auto run = [&](const Paths64& s, const Paths64& cl, ClipType ct, FillRule fr, int pc, int load) {
+    Clipper64 k;
+    k.PreserveCollinear(pc != 0);
+    ReuseableDataContainer64 rdc;
+    if (load == 0) { k.AddSubject(s); k.AddClip(cl); }
+    else if (load == 1) { for (auto& p : s) k.AddSubject(Paths64{p}); for (auto& p : cl) k.AddClip(Paths64{p}); }
+    else { rdc.AddPaths(s, PathType::Subject, false); rdc.AddPaths(cl, PathType::Clip, false); k.AddReuseableData(rdc); }
+    Paths64 sol;
+    k.Execute(ct, fr, sol);
+    v.evals++;
+    return O::canon(sol);
+  };
+  for (ClipType ct : CTS)
+    for (FillRule fr : FRS)
+      for (int pc = 0; pc < 2; ++pc) {
+        std::string cfg = std::string(" [") + O::ctName(ct) + "," + O::frName(fr) + ",pc=" + std::to_string(pc) + "]";
+        Paths64 base = run(subj, clip, ct, fr, pc, 0);
+        for (int load = 1; load < 3; ++load)
+          if (run(subj, clip, ct, fr, pc, load) != base) { v.fail(std::string("result changes when the paths are loaded ") + (load == 1 ? "one AddSubject/AddClip call per path" : "through a ReuseableDataContainer64") + cfg); return v; }
+        for (auto& var : vars)
+          for (int load = 0; load < 3; ++load)
+            if (run(var.s, var.c, ct, fr, pc, load) != base) {
+              v.fail(std::string("result changes with: ") + var.name + (load == 1 ? " (one call per path)" : load == 2 ? " (ReuseableDataContainer64)" : " (one call)") + cfg);
+              return v;
+            }
+        if (ct != ClipType::Difference && run(clip, subj, ct, fr, pc, 0) != base) { v.fail("result changes when subject and clip are swapped" + cfg); return v; }
+      }
+  v.nontrivial = subj.size() + clip.size() >= 3;
+  if (crossings > 0) ST.count("with_crossings");
+  ST.count("paths_" + std::to_string(std::min<size_t>(subj.size() + clip.size(), 8)));
+  return v;
+}
+
+Case genExact() {
+  Case c;
+  int64_t R = G::oneOf(std::vector<int64_t>{40, 100, 100, 300, 1000, 100000});
+  int ns = (int)G::range(1, 3), nc = (int)G::range(0, 3);
+  Paths64 s, cl;
+  int vmax = (int)G::range(3, 6);
+  for (int k = 0; k < ns; ++k) s.push_back(GEN::randomPath(3, vmax, R));
+  for (int k = 0; k < nc; ++k) cl.push_back(GEN::randomPath(3, vmax, R));
+  if (G::chance(30)) { for (auto& p : s) GEN::axisAlignSome(p, 30); for (auto& p : cl) GEN::axisAlignSome(p, 30); }
+  c.p["subj"] = s; c.p["clip"] = cl;
+  c.i["perm"] = (int64_t)(G::bits64() >> 1);
+  return c;
+}
+
 }  // namespace
 
 int main(int argc, char** argv) {
   Harness H;
   H.property = "C13";
   H.parts.push_back({"gp", gen, judge, nullptr, true});
+  H.parts.push_back({"exact", genExact, judgeExact, nullptr, true});
   return harnessMain(argc, argv, H);
 }
